@@ -27,6 +27,7 @@ RULE = ('(a) collector-produced snapshots of generated frames (friendly + hostil
         'later poll and send calls; non-trivial = message compared field by field; distinct by canonical case')
 ASSUMPTIONS = ['integers in attributes stay within int64', 'code points that UTF-8 cannot encode may be replaced by a '
                'short placeholder; every other character must arrive unchanged']
+RULE += "; tracepoint arguments given as None; attribute values that are equal to one another but differ in type (True / 1 / 1.0), falsy values (0, 0.0, False, '')"
 REQUIRE = {'tracepoint_arguments_given_as_none': 10, 'clock_set_back_cases': 10, 'tracepoint_arguments_given_as_numbers': 30, 'messages_compared': 800, 'fields_compared': 20000, 'collector_snapshots': 300, 'surrogate_cases': 40,
            'sequence_attribute_cases': 40, 'auth_sessions': 30, 'requests_with_metadata_checked': 100,
            'hostile_provider_sessions': 5}
